@@ -21,6 +21,7 @@ PROP = dict(
          'distinct by hash of the case',
     floor=dict(quick=100000, thorough=1000000),
     assumptions=TRUST,
+    parallel=9,
     bins=[
         _b('C06_linear', 1),
         _b('C06_linear_rot', 2),
